@@ -522,6 +522,41 @@ fn dhcp_discover(n: usize) {
     }
 }
 
+// ---------------------------------------------------------------------------------------------
+// Shutdown: the status of the first request wins
+
+/// One worker requests Status(1); `reactors` others wait for the broadcast of a request and
+/// only then request Status(2), Status(3), ... Whatever the interleaving, the status recorded
+/// as first (what `run_internet` returns) is Status(1): every other request was caused by it.
+fn shutdown_first(reactors: usize) {
+    use elvis_core::ExitStatus;
+    let sd = Shutdown::new();
+    let mut hs = vec![];
+    for k in 0..reactors {
+        let (sd, mut rx) = (sd.clone(), sd.receiver());
+        hs.push(loom::thread::spawn(move || {
+            for _ in 0..64 {
+                if rx.try_recv().is_ok() {
+                    sd.shut_down_with_status(ExitStatus::Status(2 + k as u32));
+                    return true;
+                }
+                loom::thread::yield_now();
+            }
+            false
+        }));
+    }
+    sd.shut_down_with_status(ExitStatus::Status(1));
+    let reacted: Vec<bool> = hs.into_iter().map(|h| h.join().unwrap()).collect();
+    let first = sd.verif_first_status();
+    outcome(format!("{first:?}/{reacted:?}"));
+    if first != Some(ExitStatus::Status(1)) {
+        violation(
+            "first-request-wins|Shutdown::shut_down_with_status|reaction-recorded-as-first",
+            format!("Status(1) was requested first, every other request reacted to its broadcast, yet the recorded first status is {first:?}"),
+        );
+    }
+}
+
 fn main() {
     let a: Vec<String> = std::env::args().collect();
     let (scenario, bound) = (a[1].clone(), a[2].parse::<usize>().unwrap());
@@ -549,6 +584,7 @@ fn main() {
                 ),
                 "ephemeral" => ephemeral(p[1].parse().unwrap()),
                 "dhcp" => dhcp_discover(p[1].parse().unwrap()),
+                "shutdown" => shutdown_first(p[1].parse().unwrap()),
                 "udp" => udp_bind_vs_demux(
                     p[1].parse().unwrap(),
                     p[2].parse().unwrap(),
